@@ -148,11 +148,19 @@ func (E *Engine) atLoopHead(m *Machine, f *Frame, l *Loop, from, head *ssa.Basic
 		if ctx != nil && ctx.HeadHeapSnap != nil && E.probing == 0 {
 			for c, hv := range ctx.HeadHeapSnap {
 				if cur, ok := m.Heap[c]; ok && cur != hv && !ctx.Havocked.Cells[c] {
-					panic(unsupported(fmt.Sprintf("loop %s: cell %d written in an iteration but not havocked at the head (probe missed a write)", lname0(f, l), c)))
+					if !E.feasible(m) {
+						m.Dead = true
+						return true
+					}
+					panic(unsupported(fmt.Sprintf("loop %s: cell %d written in an iteration but not havocked at the head (probe missed a write): head=%s now=%s", lname0(f, l), c, describe(hv), describe(cur))))
 				}
 			}
 			for g, hv := range ctx.HeadGSnap {
 				if cur, ok := m.G[g]; ok && cur != hv && !ctx.Havocked.G[g] {
+					if !E.feasible(m) {
+						m.Dead = true
+						return true
+					}
 					panic(unsupported(fmt.Sprintf("loop %s: state component %s written in an iteration but not havocked at the head", lname0(f, l), g)))
 				}
 			}
@@ -335,7 +343,13 @@ func (m *Machine) havocLike(v Val, hint string) Val {
 }
 
 func (E *Engine) evalInv(m *Machine, f *Frame, ctx *LoopCtx, spec *LoopSpec, inv *Clause) *Term {
-	ev := &Evaluator{E: E, M: m, Frame: f, Loop: ctx}
+	ev := &Evaluator{E: E, M: m, Frame: f, Loop: ctx, Old: m.Entry}
+	if m.Top != nil && m.Top.Lets != nil {
+		ev.Lets = map[string]Val{}
+		for k, v := range m.Top.Lets {
+			ev.Lets[k] = v
+		}
+	}
 	for _, ld := range spec.Lets {
 		v := ev.Eval(ld.Expr)
 		if ev.Lets == nil {
